@@ -24,7 +24,8 @@ TRUSTED = [
     "Ddl/DdlExplainModel.v: hand transcription of Column, Index, explainCreateQuery (all variants and sub-tallies), explainAlterQuery, countAlterCommandChildren / explainAlterCommand, explainProjection, explainStatisticsCommand, tied to the code by the ddlcount correspondence (header count, direct children, md5 of the text, whole-subtree tree check); callees (Node on expressions / types / statements, explainFunctionCall, dictionary attribute / definition printers) are assumed to print one rooted tree",
     "Stmt/StmtExplainModel.v: hand transcription of the statement printers of statements.go outside CREATE / ALTER (explainInsertQuery ... explainParallelWithQuery), of the statements Node prints inline in explain.go, of dictionary.go and of tables.go, tied to the code by the stmtcount correspondence (header count, direct children, md5 of the text, whole-subtree tree check; exhaustive over the field domains of checks/gen_stmt_cases.py); the unions under INSERT / EXPLAIN are the SELECT model's; other callees (Node on expressions / types / table identifiers / nested statements, explainFunctionCall(WithAlias), formatSampleRatio's text) are assumed to print one rooted tree / one line; explainTablesInSelectQuery is modelled and proved but cannot be reached through parser.Explain (no correspondence for it)",
     "ExprEx/ExprExplainModel.v: hand transcription of the expression printers of expressions.go and functions.go and of the expression cases of Node (every printer, its ...WithAlias twin and the copies inside explainAliasedExpr / explainWithElement separately; the helper predicates containsOnly..., the IN-list classification loop with its break, handleSpecialFunction), tied to the code by the exprcount correspondence on ASTs built directly from terms (header count, direct children, md5 of the text with every 'Literal <text>' line rewritten to 'Literal _', whole-subtree tree check); opaque and trusted: label texts (format.go: FormatLiteral, NormalizeFunctionName, OperatorToFunction, normalizeIntervalUnit, escaping of names and aliases), what parseKQL / parseMultiIntervalString / ParseFloat return for a string (an input of the model; the driver's table for the nine strings of the harness), statements and data types beneath expressions (one abstract tree each), typed-nil pointers; explainWindowSpec is modelled and proved but unreachable (windowSpecHasContent returns false), so it has no correspondence",
-    "printers outside the four models (data types: explainDataType / NameTypePair / ObjectTypeArgument, format.go): only the verified oracle applied to real output (search, not proof) — the C04 claim is partial there",
+    "Expr/LiteralModel.v and Expr/TypeModel.v (the models of C09 / C18: escapeStringLiteral, FormatLiteral, FormatFloat, formatArrayLiteral / formatTupleLiteral / formatExprAsString, explainLiteral; parseDataType, FormatDataType, escapeStringForTypeParam, needsBacktickQuoting, the type line of explainCastExprWithAlias): C04_lines proves over them that a literal line and a type line contain no line break (types: exactly when no raw name does); tied to format.go by the model-vs-code halves of the C09 / C18 correspondence runs, repeated here",
+    "printers outside the models (data types beneath expressions / columns: explainDataType / NameTypePair / ObjectTypeArgument; names and aliases, which are copied unescaped): only the verified oracle applied to real output (search, not proof) — the C04 claim is partial there",
     "translator/cmd/genkinds: node-kind vocabulary = first words of node lines of all explain*.txt goldens; extraction (ExtrOcamlBasic only) + OCaml glue",
 ]
 
@@ -91,6 +92,9 @@ def run(rep):
         # (1d) the expression printers (expressions.go, functions.go, the expression cases of Node): model vs code on ASTs built directly
         expr = expr_correspondence(rep, broken, quick)
         found = found or expr.pop("found")
+        # (1e) C04_lines (the text INSIDE a line cannot contain a line break) is stated over Expr/LiteralModel.v and Expr/TypeModel.v:
+        # tie those two models to the CURRENT format.go (model-vs-code halves of the C09 / C18 correspondence runs)
+        lines_prem = lines_premises(rep, broken, quick)
         # (2) verified checker on the real EXPLAIN output of VALID statements (the property quantifies over syntactically valid
         # statements: corpus statements; mutants accepted by the permissive parser are not in its scope and belong to C03)
         tin = os.path.join(verif.BUILD, "tree_in.txt")
@@ -186,11 +190,40 @@ def run(rep):
             "ddl": ddl,
             "stmt": stmt,
             "expr": expr,
+            "lines_premises": lines_prem,
             "trusted_base": TRUSTED,
         })
     verif.report_broken(rep, broken, found)
     rep.assumptions = ["a printed '(children 0)' on a node without children satisfies the property (the suffix equals the number of nodes beneath)",
                        "identifiers without line breaks (as in the property)"]
+
+
+# ----------------------------------------------------------------------------------------------
+# text inside a line: premises of Properties/C04_lines.v
+# ----------------------------------------------------------------------------------------------
+
+def lines_premises(rep, broken, quick):
+    import re
+    b = verif.build_topic(go_pkgs=("litdump", "typedump"), drivers=(("literal", "literal_ex"), ("types", "types_ex")))
+    if b:
+        broken += b
+        return {"built": False}
+    n = 1500 if quick else 40000
+    rc, out = verif.sh(["python3", os.path.join(verif.ROOT, "checks", "gen_literal_cases.py"), str(rep.seed), str(n), "--run", "--no-exhaustive"], timeout=3000)
+    lit_bad = [l for l in out.splitlines() if "CODE!=MODEL" in l]
+    m = re.search(r"cases=(\d+)", out)
+    lit_n = int(m.group(1)) if m else 0
+    if lit_bad or not lit_n:
+        broken.append({"obligation": "correspondence:FormatLiteral~LiteralModel (premise of C04_lines)", "detail": ("\n".join(lit_bad[:3]) or out[-800:])[:2500]})
+    rc2, out2 = verif.sh(["python3", os.path.join(verif.ROOT, "checks", "gen_type_cases.py"), str(rep.seed), str(n), "--run", "--max-report", "3", "--extras", "quick"], timeout=3000)
+    dis = re.search(r"disagreements: tokens (\d+), model-vs-code (\d+), CAST-vs-:: (\d+), spec-vs-code on wf trees (\d+), classifier (\d+)", out2)
+    nums = [int(x) for x in dis.groups()] if dis else None
+    if nums is None or nums[1] or nums[4]:
+        model = [l for l in out2.splitlines() if l.startswith("MODEL")]
+        broken.append({"obligation": "correspondence:FormatDataType~TypeModel (premise of C04_lines)", "detail": ("\n".join(model[:3]) or out2[-800:])[:2500]})
+    tc = re.search(r"tree cases (\d+)", out2)
+    return {"built": True, "literal_cases": lit_n, "literal_model_vs_code_differences": len(lit_bad),
+            "type_cases": int(tc.group(1)) if tc else 0, "type_model_vs_code_differences": nums[1] if nums else None}
 
 
 # ----------------------------------------------------------------------------------------------
